@@ -109,6 +109,10 @@ func (c *Collection) Update(id string, msg proto.Message, opts ...WriteOption) (
 		&c.mu,
 		func() (item proto.Message, err error) {
 			if created != nil {
+				// the item was absent when this write started, it has to still be absent when it is saved
+				if _, exists := c.byId[id]; exists {
+					return nil, status.Errorf(codes.Aborted, "id %v was concurrently created", id)
+				}
 				return created, nil
 			}
 
